@@ -17,7 +17,7 @@ func init() {
 		"length-inflated nests up to 64 KiB → library decodeRaw (RawBytes target) and decode-to-any vs Lean decode/decodeAny "+
 		"(ok/err, bytes consumed, value); oracles on the implementation: no panic, consumed prefix re-decodes alone to the same "+
 		"value with nothing left, Unmarshal never succeeds with trailing bytes, allocation ≤ 64·len+512 KiB (the constant covers the error chain of one maximally nested failure); distinct = distinct "+
-		"inputs; trivial = inputs rejected at the first head byte", c12)
+		"inputs; one reused Decoder over streams with refused items vs a new Decoder at each position; trivial = inputs rejected at the first head byte", c12)
 }
 
 // allocBound is the oracle for "memory bounded by a small multiple of the input length".
